@@ -11,9 +11,9 @@ import (
 
 func init() {
 	Registry["C09"] = c09
-	Metas["C09"] = Meta{Level: "other", NeedCG: true,
+	Metas["C09"] = Meta{Level: "other", NeedCG: true, Ref: true,
 		Technique: "static analysis: snapshot/revert pairing across the begin/exec/end closures, sibling check of nonce discipline at every nonce-bumping site, bound-before-slice on precompile input, nil-ness of the decoded transaction, publish order of the verifier",
-		Explain: "Static analysis of block execution in chain/app/evm and the AnnChain-specific precompile. Decided: (R1) each transaction runs between a state.Snapshot() taken by the begin callback and, on the error edge of the end callback, RevertToSnapshot of that same id; application-level accumulators are appended only on the success edge and the invalid list only on the error edge; the executor calls begin once and end on every completed iteration; (R2) every site that bumps an account nonce during execution (TransitionDb, executeKVTx) is dominated by a comparison of the account nonce with the transaction's nonce whose mismatch edges return errors (CREATE's creator-nonce bump exempt: reference-equivalent opcode semantics, C10); (R3) every slice of the input of a precompile that is not reference-equivalent (AdminOP.Run) is preceded by a length test; (R4) the execution callback is not invoked with a nil transaction; (R5) publish order in the parallel verifier (shared with C05-R4). Noted, not an obligation: Hook.Sync runs the application callback in a fresh goroutine without recover, so any panic under OnExecute is process-fatal — which is why R3/R4 are totality obligations. NOT decided: completeness of the state journal (C11), receipt contents, EVM totality (C10).",
+		Explain: "Static analysis of block execution in chain/app/evm and the AnnChain-specific precompile. Decided: (R1) each transaction runs between a state.Snapshot() taken by the begin callback and, on the error edge of the end callback, RevertToSnapshot of that same id; application-level accumulators are appended only on the success edge and the invalid list only on the error edge; the executor calls begin once and end on every completed iteration; (R2) every site that bumps an account nonce during execution (TransitionDb, executeKVTx) is dominated by a comparison of the account nonce with the transaction's nonce whose mismatch edges return errors (CREATE's creator-nonce bump exempt: reference-equivalent opcode semantics, C10); (R3) every slice of the input of a precompile that is not reference-equivalent (AdminOP.Run) is preceded by a length test; (R4) the execution callback is not invoked with a nil transaction; (R5) publish order in the parallel verifier (shared with C05-R4). (R6) the execution core the callbacks call into (state journal, StateDB, TransitionDb, EVM.create/Call) is reference-equivalent (shared with C10/C11). Noted, not an obligation: Hook.Sync runs the application callback in a fresh goroutine without recover, so any panic under OnExecute is process-fatal — which is why R3/R4 are totality obligations. NOT decided: completeness of the state journal (C11), receipt contents, EVM totality (C10).",
 		Assume: []string{"eth/core/state journal reverts exactly (C11)", "etypes.Sender is deterministic"},
 	}
 }
@@ -24,6 +24,21 @@ func c09(c *Ctx) {
 	c09R3(c)
 	c09R4(c)
 	publishOrderRule(c, "R5")
+	c09R6(c)
+}
+
+// R6: the execution core the application calls into is the reference's.
+func c09R6(c *Ctx) {
+	eq := c.Equiv()
+	setAssume(eq, c10Assume)
+	setAssume(eq, c11Assume)
+	rule := c.R.Rule("R6", "execution core is the reference's: the state journal / StateDB snapshot-revert code (eth/core/state) and the transaction-execution functions of eth/core and eth/core/vm that decide nonce bumps and rollback (TransitionDb, preCheck, buyGas, refundGas, ApplyMessage, EVM.create/Create/Create2/Call) are equivalent to go-ethereum v1.8.27 or reviewed deviations (shared with C10/C11)", 100)
+	equivPackage(c, rule, "eth/core/state", c11Dev["eth/core/state"], map[string]string{})
+	equivPackageSel(c, rule, "eth/core", c10DevOther["eth/core"], nil, c10Only["eth/core"])
+	byz := "precompiles := PrecompiledContractsHomestead if evm . ChainConfig ( ) . IsByzantium ( evm . BlockNumber ) { precompiles = PrecompiledContractsByzantium }"
+	equivPackageSel(c, rule, "eth/core/vm", map[string]Deviation{
+		"(*EVM).Call": {Reason: "Byzantium precompile set for every block (C10-R4)", Patch: []PatchStep{{Ref: byz, Tree: "precompiles := PrecompiledContractsByzantium"}}},
+	}, nil, []string{"(*EVM).create", "(*EVM).Create", "(*EVM).Create2", "(*EVM).Call", "(*EVM).CallCode", "(*EVM).DelegateCall", "(*EVM).StaticCall"})
 }
 
 func c09R1(c *Ctx) {
